@@ -1,26 +1,27 @@
-\* thorough: 2 clients x 1 post, 1 kill, 1 snapshot, 1 timeout
+\* membership (a): 3 nodes, ONE initial member, 3 joins (one of them a re-join after the part), 1 part, 1 kill, 1 compacting snapshot (TrailingLogs = 0: late joiners need InstallSnapshot), 1 client x 2 posts
 \* Exhaustive, idealised duplicate test (F7 = FALSE): every invariant must hold.
 \* Nodes are model values and symmetric; the history variable is outside the VIEW.
 SPECIFICATION Spec
 CONSTANTS
   Nodes = {n1, n2, n3}
-  Clients = {1, 2}
-  MaxCmid = 1
+  Clients = {1}
+  MaxCmid = 2
   MaxKills = 1
   MaxSnaps = 1
   MaxLeaderChanges = 0
   MaxPauses = 0
-  MaxFails = 1
+  MaxFails = 0
   F7 = FALSE
-  InitSize = 3
-  MaxJoins = 0
-  MaxParts = 0
-  Trailing = 99
+  InitSize = 1
+  MaxJoins = 3
+  MaxParts = 1
+  Trailing = 0
 VIEW view
 SYMMETRY NodeSymmetry
 INVARIANTS
   TypeOK
   LeaderComplete
+  CommittedOnMajority
   AckedDurable
   AppliedPrefixAgreement
   StreamsAgree
@@ -30,4 +31,6 @@ INVARIANTS
 PROPERTIES
   LogGrows
   AckOnlyAfterApply
+  SingleServerChanges
+  RestoredStateIsPrefix
 CHECK_DEADLOCK FALSE
